@@ -302,7 +302,7 @@ func c16KeyValueElsewhere(c Case) *Failure {
 }
 
 func runC16(r *Run) {
-	r.Rule("every method (12 methods, .decimal with 41 precision/scale combinations incl. every boundary and out-of-range argument; scales -312..-296 on 13 values next to the largest double; thorough: the whole domain p in 1..1000 x s in -1000..1000) x every input kind x a boundary grid of 48 numeric values (int32/int64 limits +-1, +-0.25/0.4/0.5/0.75 around the int32 limits, rounding ties, 2^53, 2^63 as double and neighbours, tiny/huge) each as float64, json.Number and string, 17 further json.Number spellings, 48 strings (numeric forms, boolean words, blanks, Infinity/NaN), containers; direct and after [*]; both modes, verbose and silent; oracle: reference model with math/big (accepted kinds, suppressible error otherwise, correctly rounded results, mandatory errors outside int32/int64/precision-scale/finite); .string() converts back with the matching method; keyvalue triples per member with ids equal within an object, distinct across objects, stable over three executions; non-trivial = reference yields items or an error")
+	r.Rule("every method (12 methods, .decimal with 41 precision/scale combinations incl. every boundary and out-of-range argument; scales -312..-296 on 13 values next to the largest double; thorough: the whole domain p in 1..1000 x s in -1000..1000) x every input kind x a boundary grid of 48 numeric values (int32/int64 limits +-1, +-0.25/0.4/0.5/0.75 around the int32 limits, rounding ties, 2^53, 2^63 as double and neighbours, tiny/huge) each as float64, json.Number and string, 17 further json.Number spellings, 48 strings (numeric forms, boolean words, blanks, Infinity/NaN), containers; direct and after [*]; both modes, verbose and silent; oracle: reference model with math/big (accepted kinds, suppressible error otherwise, correctly rounded results, mandatory errors outside int32/int64/precision-scale/finite); .string() converts back with the matching method; the int32/int64 limits also in their exact integer spelling as json.Number and string; keyvalue triples per member with ids equal within an object, distinct across objects, stable over three executions, and equal wherever in the path the object is asked (filter over generated triples, filters and subscripts over variables); non-trivial = reference yields items or an error")
 	values := c16Values(r.Thorough())
 	paths := c16MethodPaths()
 	r.Bound("values", len(values))
